@@ -283,6 +283,59 @@ class Model(metaclass=StrictMeta):
         self.v = v
 
 
+RAN = []     # application methods that were run while the program was paused
+
+
+class CountingKey:
+    def __init__(self, k):
+        self.k = k
+
+    def __hash__(self):
+        RAN.append('CountingKey.__hash__')
+        return hash(self.k)
+
+    def __eq__(self, other):
+        RAN.append('CountingKey.__eq__')
+        return isinstance(other, CountingKey) and other.k == self.k
+
+    def __str__(self):
+        return 'key-%s' % self.k
+
+
+class LazyProxy:
+    """The usual lazy proxy: asking for its class resolves the target."""
+
+    def __init__(self):
+        self.target = 'resolved'
+
+    @property
+    def __class__(self):
+        RAN.append('LazyProxy.__class__')
+        return str
+
+
+class ArgsError(Exception):
+    @property
+    def args(self):
+        RAN.append('ArgsError.args')
+        return ('computed',)
+
+
+class Guarded:
+    __slots__ = ('secret',)
+
+    def __init__(self):
+        pass
+
+
+def _guarded_secret(self):
+    RAN.append('Guarded.secret')
+    return 'fetched'
+
+
+Guarded.secret = property(_guarded_secret)
+
+
 class traceback:
     def __init__(self, v):
         self.v = v
@@ -335,6 +388,11 @@ def typed(n):
     tb = traceback('x')
     mo = module('y')
     it = list_iterator('z')
+    keyed = {CountingKey(1): 'one', CountingKey(2): 'two'}
+    lazy = LazyProxy()
+    ae = ArgsError('raised-with')
+    gd = Guarded()
+    del RAN[:]
     model = Model(5)
     del StrictMeta.EQ_CALLS[:]
     ad = AttrDict(a=1, b=2)
@@ -389,6 +447,7 @@ def typed_objects_leg(c, wd):
                                     ('tb', ['v']), ('mo', ['v']), ('it', ['v']),
                                     # the attribute-dict idiom (each entry once), keys readable as attributes, slots on
                                     # classes derived from containers and exceptions
+                                    ('keyed', ['key-1', 'key-2']), ('lazy', ['target']), ('gd', []),
                                     ('model', ['v']), ('ad', ['a', 'b']), ('rec', ['a', 'b']), ('jr', ['0', '1']), ('sb', ['0', '1', 'owner']),
                                     ('sf', ['0', 'code'])):
                 v = by.get(name)
@@ -399,6 +458,8 @@ def typed_objects_leg(c, wd):
                 v = by.get(name)
                 if not bad and (v is None or v.value != 'tb-text'):
                     bad = 'local %s (an application class named %s) shows the text %r' % (name, v.type if v else None, v.value if v else None)
+            if not bad and mod.RAN:
+                bad = 'looking at the locals ran application code: %s' % sorted(set(mod.RAN))
             if not bad and mod.StrictMeta.EQ_CALLS:
                 bad = 'looking at local model compared its CLASS with %d other objects (the metaclass __eq__ is application code)' % len(
                     mod.StrictMeta.EQ_CALLS)
